@@ -33,7 +33,10 @@ def table_variants():
     reg = registry()
     T, S = reg["Table"], reg["Schema"]
     schemas = [("none", lambda: None), ("str", lambda: "s"), ("list", lambda: ["d", "s"]), ("tuple", lambda: ("d", "s")),
-               ("Schema", lambda: S("s")), ("nested", lambda: S("s", parent=S("d"))), ("str2", lambda: "s2")]
+               ("Schema", lambda: S("s")), ("nested", lambda: S("s", parent=S("d"))), ("str2", lambda: "s2"),
+               # chains that differ in an outer level only
+               ("list-outer2", lambda: ["d2", "s"]), ("nested-outer2", lambda: S("s", parent=S("d2"))),
+               ("three", lambda: ["a", "d", "s"]), ("three-outer2", lambda: S("s", parent=S("d", parent=S("b"))))]
     out = []
     for name in ("t", "u"):
         for sn, sf in schemas:
@@ -84,7 +87,15 @@ def other_variants():
                     q = q.select("a")
                     return q.as_(alias) if alias else q
                 out.append(({"kind": "builder", "alias": alias, "from": frm, "cls": cls}, mk))
-    for name in ("c1", "c2"):
+    # set operations compare by alias too (and never equal a plain builder, whatever the alias)
+    for alias in (None, "x", "y"):
+        for frm in ("t", "u"):
+            for op in ("union", "intersect"):
+                def mk(alias=alias, frm=frm, op=op):
+                    q = getattr(reg["Query"].from_(T(frm)).select("a"), op)(reg["Query"].from_(T("v")).select("a"))
+                    return q.as_(alias) if alias else q
+                out.append(({"kind": "_SetOperation", "alias": alias, "from": frm, "op": op}, mk))
+    for name in ("c1", "c2", "x"):
         for q in (None, "t", "u"):
             for klass in ("AliasedQuery", "Cte"):
                 def mk(name=name, q=q, klass=klass):
@@ -134,6 +145,12 @@ def cases(tier, seed, shard, nshards):
         for (t1, c1), (t2, c2) in itertools.product(itertools.product(tabs, cols), repeat=2):
             shapes.append({"k": "expr", "e": [kind, ["f", t1, c1], ["f", t2, c2]]})
     # mirrored names: column named like the other field's table, columns named like their own table
+    st = ["a", "as1", "as2", "as3"]
+    for (t1, t2) in itertools.product(st, repeat=2):
+        for op in ("==", "+", "and", "fn", "tuple", "in", "like"):
+            shapes.append({"k": "expr", "e": [op, ["f", t1, "x"], ["f", t2, "x"]]})
+    for (t1, t2, t3) in itertools.product(st, repeat=3):
+        shapes.append({"k": "expr", "e": ["and", ["==", ["f", t1, "x"], ["f", t2, "x"]], ["==", ["f", t3, "x"], ["c", 1]]]})
     mt = ["x", "y"]
     for (t1, c1), (t2, c2) in itertools.product(itertools.product(mt, ["x", "y"]), repeat=2):
         for op in ("==", "+", "and", "fn", "tuple"):
@@ -155,7 +172,7 @@ def cases(tier, seed, shard, nshards):
 def random_expr(rnd, depth):
     if depth <= 0 or rnd.random() < 0.25:
         if rnd.random() < 0.85:
-            return ["f", rnd.choice(["a", "b", "c", "a2", "x", "y"]), rnd.choice(["x", "y", "z"])]
+            return ["f", rnd.choice(["a", "b", "c", "a2", "x", "y", "as1", "as2"]), rnd.choice(["x", "y", "z"])]
         return ["c", rnd.choice([1, "s", None])]
     op = rnd.choice(["==", "+", "-", "and", "or", "fn", "case", "in", "between", "neg", "not", "isnull", "alias",
                      "all", "extract", "aggfilter", "over", "anorder", "cast", "tuple", "like", "period"])
@@ -243,12 +260,24 @@ def h(o):
         return None
 
 
+SCHEMA_CHAIN = {"none": (), "str": ("s",), "list": ("d", "s"), "tuple": ("d", "s"), "Schema": ("s",), "nested": ("d", "s"), "str2": ("s2",),
+                "list-outer2": ("d2", "s"), "nested-outer2": ("d2", "s"), "three": ("a", "d", "s"), "three-outer2": ("b", "d", "s")}
+
+
 def check_pair(mon, a, b, da, db, klass):
     """Contract checks for one ordered pair. Returns True on violation."""
     e1 = (a == b)
     e2 = (b == a)
     n1 = (a != b)
     mon.count("pair_comparisons")
+    if klass == "Table" and isinstance(e1, bool):
+        # table equality is equality of (name, schema chain, alias): neither coarser nor finer
+        want = (da["name"], SCHEMA_CHAIN[da["schema"]], da["alias"]) == (db["name"], SCHEMA_CHAIN[db["schema"]], db["alias"])
+        mon.count("table_identity_checks")
+        if e1 != want:
+            mon.violation("Table:eq-differs-from-identity:%s" % ("too-coarse" if e1 else "too-fine"),
+                          "a == b is %s for %r / %r, whose (name, schema chain, alias) are %s" % (e1, da, db, "equal" if want else "different"))
+            return True
     if not isinstance(e1, bool) or not isinstance(e2, bool):
         mon.violation("%s:eq-not-boolean" % klass, "== returned %r" % type(e1).__name__)
         return True
@@ -347,7 +376,9 @@ def run_other_row(case, mon):
         return
     same = [b for d, b in objs if d["kind"] == da["kind"]]
     rnd = random.Random(case["i"])
-    for _ in range(8):
+    for rep in range(12):
+        if rep == 8:
+            same = [b for d, b in objs if d["kind"] not in ("Schema", "Database")]  # mixed kinds: builders, set operations, CTE references
         S = rnd.sample(same, rnd.randint(1, min(6, len(same))))
         lin = any(a == s for s in S)
         try:
@@ -377,7 +408,9 @@ def run_expr(case, mon):
     tables = {"a": T("ta"), "b": T("tb"), "c": T("tc"), "a2": T("ta", alias="z"),
               # tables named like the columns: "x"."y" next to "y"."x", and columns named like their table
               # (an alias equal to another table's name is not used: the two sources would carry the same qualified name)
-              "x": T("x"), "y": T("y")}
+              "x": T("x"), "y": T("y"),
+              # same table name and alias, different schema (the namespace of a column reference does not show the schema)
+              "as1": T("ta", schema="s1"), "as2": T("ta", schema=["d", "s1"]), "as3": T("ta", schema="s3")}
     refs = set()
     try:
         e = build_expr(case["e"], tables, refs)
